@@ -58,6 +58,7 @@ func (s *sim) drain() {
 		return
 	}
 	s.draining = true
+	s.drainStartStep = s.step
 	s.settle()
 	s.check(Action{K: "drain"})
 	s.flushObs("{drain begins}")
@@ -285,6 +286,13 @@ func (s *sim) checkEvents() {
 		}
 	}
 	for i, got := range s.events {
+		mustHave := mustHave
+		if s.cfg.LazyListener && s.shutdownStep > 0 && (s.drainStartStep == 0 || s.shutdownStep <= s.drainStartStep) {
+			// a listener that was behind when the shutdown came is owed only
+			// what had happened when it was last read; and while one listener
+			// is behind, the others wait with it (events go out in turn)
+			mustHave = s.owedBy(s.lazyReadStep)
+		}
 		bad := len(got) > len(want) || len(got) < mustHave
 		for j := 0; !bad && j < len(got); j++ {
 			bad = got[j] != want[j]
@@ -295,6 +303,26 @@ func (s *sim) checkEvents() {
 			return
 		}
 	}
+}
+
+// owedBy counts the events of shells' lives up to and including step n.
+func (s *sim) owedBy(n int) int {
+	k, owed := 0, 0
+	for _, g := range s.m.gens {
+		if g.ready {
+			k++
+			if g.readyStep > 0 && g.readyStep <= n {
+				owed = k
+			}
+		}
+		if g.ended {
+			k++
+			if g.endStep > 0 && g.endStep <= n {
+				owed = k
+			}
+		}
+	}
+	return owed
 }
 
 // checkLog: the JSON log as a transcript (C11).
